@@ -5,6 +5,9 @@ mod util;
 mod c_inflights;
 mod c_quorum;
 mod c_memstorage;
+mod node;
+mod sim;
+mod c_node;
 
 fn main() {
     let args: Vec<String> = std::env::args().collect();
@@ -18,6 +21,7 @@ fn main() {
         "inflights" => c_inflights::main(rest),
         "quorum" => c_quorum::main(rest),
         "memstorage" => c_memstorage::main(rest),
+        "node" => c_node::main(rest),
         other => {
             eprintln!("unknown component {}", other);
             std::process::exit(2);
